@@ -20,6 +20,7 @@ import (
 	"time"
 
 	"github.com/gopcua/opcua"
+	"github.com/gopcua/opcua/ua"
 
 	"verifharness/g2kit"
 	"verifharness/vfgo"
@@ -35,17 +36,22 @@ type Hist struct {
 	Jitter  int `json:"jitter"` // max random pause between operations, microseconds
 	Kind    int `json:"kind"`   // built-in type the numbers travel as (index into g2kit.Kinds)
 	TS      int `json:"ts"`     // 1: every write carries an explicit source timestamp, random within +-1 h (not monotonic)
-	Salt    int `json:"salt"`
+	Map     int `json:"map"`    // 1: the keys m1.. of the map namespace are shared nodes as well
+	RO      int `json:"ro"`     // 1: the read-only node r1 is a shared node as well (writes to it are refused)
+	MaxAge  int `json:"maxage"` // 1: reads carry a random MaxAge (0, 1 ms, 1 h, max float)
+	// Kind -1: every write picks its own kind, and numbers that an Int32 cannot hold where the kind allows
+	Salt int `json:"salt"`
 }
 
 type Event struct {
-	T  int64  `json:"t"`
-	Ev string `json:"ev"` // call | ret | fail
-	C  string `json:"c"`
-	Op string `json:"op,omitempty"`
-	N  string `json:"n,omitempty"`
-	V  int64  `json:"v"`
-	E  string `json:"e,omitempty"`
+	T   int64  `json:"t"`
+	Rej bool   `json:"rej,omitempty"` // ret of a write the server refused with a Bad status: no effect
+	Ev  string `json:"ev"`            // call | ret | fail
+	C   string `json:"c"`
+	Op  string `json:"op,omitempty"`
+	N   string `json:"n,omitempty"`
+	V   int64  `json:"v"`
+	E   string `json:"e,omitempty"`
 }
 
 type line struct {
@@ -93,6 +99,13 @@ func main() {
 		}
 		todo = rest
 	}
+}
+
+func kindName(h Hist) string {
+	if h.Kind < 0 {
+		return "mixed"
+	}
+	return g2kit.Kinds[h.Kind%len(g2kit.Kinds)]
 }
 
 // classify: a history is non-trivial when at least one pair of operations on the same node
@@ -148,7 +161,7 @@ func classify(h Hist, evs []Event) (string, bool, map[string]int) {
 		}
 		return "100+"
 	}
-	class := fmt.Sprintf("clients%d/nodes%d/pw%d/jitter%v/%s/ts%d/conc%d/conflicts%s", h.Clients, h.Nodes, h.PW, h.Jitter > 0, g2kit.Kinds[h.Kind%len(g2kit.Kinds)], h.TS, maxc, bucket(conflicts))
+	class := fmt.Sprintf("clients%d/nodes%d/map%d/ro%d/age%d/pw%d/jitter%v/%s/ts%d/conc%d/conflicts%s", h.Clients, h.Nodes, h.Map, h.RO, h.MaxAge, h.PW, h.Jitter > 0, kindName(h), h.TS, maxc, bucket(conflicts))
 	return class, conflicts > 0, map[string]int{"ops": len(ops), "conflicting_overlaps": conflicts, "max_concurrency": maxc}
 }
 
@@ -206,19 +219,64 @@ func stamp(h Hist, rng interface{ Intn(int) int }) time.Time {
 	return time.Date(2026, 1, 1, 12, 0, 0, 0, time.UTC).Add(time.Duration(rng.Intn(7200000)-3600000) * time.Millisecond)
 }
 
+type target struct {
+	id   *ua.NodeID
+	name string
+	ro   bool
+}
+
+func pool(srv *g2kit.Srv, h Hist) []target {
+	var res []target
+	for i := 0; i < h.Nodes; i++ {
+		res = append(res, target{id: srv.Nodes[i], name: g2kit.NodeName(i)})
+	}
+	if h.Map > 0 {
+		for i := 0; i < h.Nodes; i++ {
+			res = append(res, target{id: srv.Keys[i], name: g2kit.KeyName(i)})
+		}
+	}
+	if h.RO > 0 {
+		res = append(res, target{id: srv.RO, name: "r1", ro: true})
+	}
+	return res
+}
+
+// number and kind of write k of client ci
+func pick(h Hist, rng interface{ Intn(int) int }, ci, k int) (int64, int) {
+	n := int64(ci+1)*100000 + int64(k)
+	if h.Kind >= 0 {
+		return n, h.Kind
+	}
+	kind := rng.Intn(len(g2kit.Kinds))
+	if kind == 0 || kind == 1 || kind == 3 { // Int64, UInt32, Double: beyond the range of an Int32
+		n += 3000000000
+	}
+	return n, kind
+}
+
+var ages = []float64{0, 1, 3600000, 1.7976931348623157e308}
+
 func one(srv *g2kit.Srv, clients []*opcua.Client, h Hist) line {
+	nodes := pool(srv, h)
 	// every history starts with sequential writes of number 0 (in the history's variant kind) to
 	// every node by client c1; they are ordinary events of the history
 	var seq atomic.Int64
 	var pre []Event
-	for i := 0; i < h.Nodes; i++ {
+	k0 := h.Kind
+	if k0 < 0 {
+		k0 = 2 // mixed histories start from Int32 values
+	}
+	for i, nd := range nodes {
+		if nd.ro {
+			continue // never written: holds Int64 0 = Tagged(0, 0) = the initial value of the contract
+		}
 		t := seq.Add(1)
-		if err := g2kit.WriteKindTS(clients[0], srv.Nodes[i], 0, h.Kind, stamp(h, vfgo.Rand(int64(h.Salt)*1000+500+int64(i))), opTimeout); err != nil {
+		if err := g2kit.WriteKindTS(clients[0], nd.id, 0, k0, stamp(h, vfgo.Rand(int64(h.Salt)*1000+500+int64(i))), opTimeout); err != nil {
 			return line{ID: h.ID, Err: "reset write: " + err.Error()}
 		}
 		t2 := seq.Add(1)
-		v := g2kit.Tagged(0, h.Kind)
-		pre = append(pre, Event{T: t, Ev: "call", C: "c1", Op: "w", N: g2kit.NodeName(i), V: v}, Event{T: t2, Ev: "ret", C: "c1", V: v})
+		v := g2kit.Tagged(0, k0)
+		pre = append(pre, Event{T: t, Ev: "call", C: "c1", Op: "w", N: nd.name, V: v}, Event{T: t2, Ev: "ret", C: "c1", V: v})
 	}
 	var wg sync.WaitGroup
 	evs := make([][]Event, h.Clients)
@@ -233,29 +291,34 @@ func one(srv *g2kit.Srv, clients []*opcua.Client, h Hist) line {
 			my := make([]Event, 0, 2*h.Ops)
 			<-start
 			for k := 1; k <= h.Ops; k++ {
-				ni := rng.Intn(h.Nodes)
+				nd := nodes[rng.Intn(len(nodes))]
 				write := rng.Intn(100) < h.PW
 				if h.Jitter > 0 {
 					time.Sleep(time.Duration(rng.Intn(h.Jitter)) * time.Microsecond)
 				}
 				if write {
-					n := int64(ci+1)*100000 + int64(k)
-					v := g2kit.Tagged(n, h.Kind)
-					t := seq.Add(1)
+					n, kind := pick(h, rng, ci, k)
+					v := g2kit.Tagged(n, kind)
 					ts := stamp(h, rng)
-					err := g2kit.WriteKindTS(c, srv.Nodes[ni], n, h.Kind, ts, opTimeout)
+					t := seq.Add(1)
+					st, err := g2kit.WriteKindStatus(c, nd.id, n, kind, ts, opTimeout)
 					t2 := seq.Add(1)
-					my = append(my, Event{T: t, Ev: "call", C: name, Op: "w", N: g2kit.NodeName(ni), V: v})
+					my = append(my, Event{T: t, Ev: "call", C: name, Op: "w", N: nd.name, V: v})
 					if err != nil {
 						my = append(my, Event{T: t2, Ev: "fail", C: name, E: err.Error()})
 						break
 					}
-					my = append(my, Event{T: t2, Ev: "ret", C: name, V: v})
+					// a write answered with a Bad status is a refused write: it must have no effect
+					my = append(my, Event{T: t2, Ev: "ret", C: name, V: v, Rej: st != ua.StatusOK, E: fmt.Sprint(st)})
 				} else {
+					age := 0.0
+					if h.MaxAge > 0 {
+						age = ages[rng.Intn(len(ages))]
+					}
 					t := seq.Add(1)
-					v, err := g2kit.ReadTagged(c, srv.Nodes[ni], opTimeout)
+					v, err := g2kit.ReadTaggedAge(c, nd.id, age, opTimeout)
 					t2 := seq.Add(1)
-					my = append(my, Event{T: t, Ev: "call", C: name, Op: "r", N: g2kit.NodeName(ni)})
+					my = append(my, Event{T: t, Ev: "call", C: name, Op: "r", N: nd.name})
 					if err != nil {
 						my = append(my, Event{T: t2, Ev: "fail", C: name, E: err.Error()})
 						break
